@@ -23,6 +23,7 @@ var commands = map[string]func([]string){
 	"ownpost":     cmdOwnPost,
 	"system":      cmdSystem,
 	"system-twin": cmdSystemTwin,
+	"names-post":  cmdNamesPost,
 	"ownexamples": cmdOwnExamples,
 }
 
